@@ -425,7 +425,7 @@ func main() {
 	workers := fs.Int("workers", 4, "")
 	sweep := fs.Bool("sweep", false, "one single-name spec per (slot kind, representative name)")
 	knownRuns := fs.Int("knownruns", 0, "how many listed findings to re-run (0 = all)")
-	nreg := fs.Int("regress", 11, "how many single-name regression specs (names the generator handles specially)")
+	nreg := fs.Int("regress", 13, "how many single-name regression specs (names the generator handles specially)")
 	_ = fs.Parse(os.Args[1:])
 	if *bin == "" || *work == "" || *out == "" {
 		die("-bin, -work, -out required")
@@ -643,7 +643,8 @@ func main() {
 		// the first two are fixed: a capitalised timeout parameter and a definition ending in a go-build suffix
 		// ... and a tag shaped like a major-version suffix with a capital V (its package must not be called v2), an operation id and a
 		// definition ending in words go build knows but no current port uses
-		regs = append([]rg{{"pq", "Timeout"}, {"def0", "lab_test"}, {"tag0", "V2"}, {"op0", "rebootZos"}, {"def0", "host_sparc"}}, regs...)
+		// ... and definitions that are referred to ($ref) under names a URL fragment has to escape: a blank, a non-ASCII letter
+		regs = append([]rg{{"pq", "Timeout"}, {"def0", "lab_test"}, {"tag0", "V2"}, {"op0", "rebootZos"}, {"def0", "host_sparc"}, {"def0", "order line"}, {"def2", "caf\u00e9 au lait"}}, regs...)
 		cnt := 0
 		for _, g := range regs {
 			if cnt >= *nreg {
@@ -704,12 +705,25 @@ func main() {
 		{"operation-id", "get-thing", "get_thing", "punctuation-variant"}, {"operation-id", "getThing", "GetThing", "case-only"},
 		{"param-query", "x-id", "x_id", "punctuation-variant"}, {"param-query", "order", "Order", "case-only"},
 		{"tag", "pet store", "pet-store", "punctuation-variant"},
+		// a definition renamed with x-go-name onto the go name of another one
+		{"definition-x-go-name", "widget", "legacy_widget=Widget", "x-go-name-onto-another-definition"},
+		{"definition-x-go-name", "first_thing=Gadgetry", "second_thing=Gadgetry", "same-x-go-name-twice"},
 	}
 	for _, c := range colls {
 		sp := newSpec()
 		switch c.kind {
 		case "definition":
 			sp.ExtraDefs = []string{c.a, c.b}
+		case "definition-x-go-name":
+			sp.GoNames = map[string]string{}
+			for _, x := range []string{c.a, c.b} {
+				nm := x
+				if i := strings.Index(x, "="); i >= 0 {
+					nm = x[:i]
+					sp.GoNames[nm] = x[i+1:]
+				}
+				sp.ExtraDefs = append(sp.ExtraDefs, nm)
+			}
 		case "property":
 			sp.ExtraProps = []string{c.a, c.b}
 		case "path-no-id":
@@ -885,6 +899,9 @@ func main() {
 		}
 		var ds, ps []string
 		for _, d := range j.Spec.defs() {
+			if gn, ok := j.Spec.GoNames[d]; ok {
+				d = gn // the naming plan starts from x-go-name where a definition carries one
+			}
 			ds = append(ds, runesCoq(d))
 			inputs = append(inputs, d, pascalize(d), snakize(pascalize(d)))
 		}
